@@ -212,7 +212,8 @@ func verifHarness_C07_intact() {
 func verifHarness_C07_sync_damage() {
 	verifAllocMax(4096)
 	comp := verifCompression(verifChoice("codec", 3))
-	f := verifBuildFile(comp, []int{1, 1})
+	counts := [][]int{{1, 1}, {0, 1}, {1, 0}}[verifChoice("layout", 3)] // blocks without records are checked like any other
+	f := verifBuildFile(comp, counts)
 	which := verifChoice("block", 2)
 	bad := verifBytes("badsync", 16)
 	differs := false
@@ -224,14 +225,18 @@ func verifHarness_C07_sync_damage() {
 	sink := &verifSink{failAt: -1}
 	err := ReadFile(&verifReader{buf: f.data}, verifRec{}, sink.cb)
 	verifAssert(err != nil, "C07:sync-mismatch-is-an-error")
-	verifAssert(len(sink.got) <= which+1, "C07:nothing-delivered-after-the-damaged-block")
+	maxDelivered := 0
+	for i := 0; i <= which; i++ {
+		maxDelivered += counts[i]
+	}
+	verifAssert(len(sink.got) <= maxDelivered, "C07:nothing-delivered-after-the-damaged-block")
 	verifReach("end")
 }
 
 // snappy: a trailer that differs from the CRC of the decompressed data is an error.
 func verifHarness_C07_snappy_checksum() {
 	verifAllocMax(4096)
-	f := verifBuildFile(CompressionSnappy, []int{1})
+	f := verifBuildFile(CompressionSnappy, []int{verifChoice("records", 2)})
 	// the four bytes before the sync marker are the big-endian CRC
 	p := f.payloadEnd[0]
 	bad := verifBytes("badcrc", 4)
@@ -452,6 +457,50 @@ func verifHarness_C08_truncation() {
 	}
 	verifObserveInt("delivered", len(sink.got))
 	verifObserveBool("err", err != nil)
+}
+
+// A block whose record count needs a two-byte varint (70 records, concrete
+// contents): every cut position, in particular the one inside the count.
+func verifHarness_C08_truncation_long_count() {
+	verifAllocMax(4096)
+	verifUnwind(400)
+	// uncompressed only: the real compressors shrink 70 similar records far
+	// below the model's length, so cut offsets would not correspond natively
+	comp := CompressionNull
+	s, err := SchemaForType(verifRec{})
+	verifAssume(err == nil)
+	c, err := s.Codec(verifRec{})
+	verifAssume(err == nil)
+	sb, _ := s.Marshal()
+	fw, err := NewFileWriter(sb, comp)
+	verifAssume(err == nil)
+	data := fw.AppendHeader(nil)
+	hdrEnd := len(data)
+	const n = 70
+	w := NewWriteBuf(nil)
+	for i := 0; i < n; i++ {
+		v := verifRec{A: int64(i), B: "x"}
+		c.Write(w, unsafe.Pointer(&v))
+	}
+	rec := &verifRecorder{failAt: -1}
+	verifAssume(fw.WriteBlock(rec, n, w.Bytes()) == nil)
+	data = append(data, rec.all()...)
+	blockEnd := len(data)
+	back := verifChoice("cut.back", blockEnd-hdrEnd+1)
+	cut := blockEnd - back
+	sink := &verifSink{failAt: -1}
+	err = ReadFile(&verifReader{buf: data[:cut]}, verifRec{}, sink.cb)
+	want := 0
+	if cut >= blockEnd-16 {
+		want = n
+	}
+	verifAssert(len(sink.got) == want, "C08:delivers-exactly-the-records-of-complete-blocks")
+	if cut == hdrEnd || cut == blockEnd {
+		verifAssert(err == nil, "C08:clean-cut-is-success")
+	} else {
+		verifAssert(err != nil, "C08:mid-structure-cut-is-an-error")
+	}
+	verifReach("end")
 }
 
 // ---------------------------------------------------------------- C09 / C16
@@ -861,6 +910,7 @@ type verifRec10 struct {
 	B []byte
 	P *int64
 	L []string
+	M map[string]string
 }
 
 // Records delivered to the callback do not alias the reader's buffers: after
@@ -887,6 +937,7 @@ func verifHarness_C10_retained_records() {
 		v.P = new(int64)
 		*v.P = int64(verifNondetU8(tag + ".P"))
 		v.L = append(v.L, verifString(tag+".L", 1))
+		v.M = map[string]string{verifString(tag+".Mk", 2): verifString(tag+".Mv", 1)}
 		w := NewWriteBuf(nil)
 		c.Write(w, unsafe.Pointer(v))
 		rec := &verifRecorder{failAt: -1}
@@ -928,6 +979,14 @@ func verifHarness_C10_retained_records() {
 			for j := range w.L {
 				ok = verifAnd(ok, verifStrEq(g.L[j], w.L[j]))
 			}
+		}
+		ok = verifAnd(ok, len(g.M) == 1)
+		for k, mv := range w.M {
+			found := false
+			for gk, gv := range g.M {
+				found = verifOr(found, verifAnd(verifStrEq(gk, k), verifStrEq(gv, mv)))
+			}
+			ok = verifAnd(ok, found)
 		}
 		verifAssert(ok, "C10:retained-record-still-holds-its-values")
 		if verifSymbolic() {
@@ -1159,10 +1218,14 @@ func verifHarness_C10_bank_step() {
 		if cp > 0 {
 			arr = unsafe_NewArray(unpackEFace(typ).data, cp)
 			// live allocations hold arbitrary scalar data (int64 arena) or stay
-			// zero (string arena: pointer words)
+			// zero (string arena: pointer words); free slots hold whatever
+			// earlier lives of the bank left there
 			if i == 0 {
 				snap = verifBytes("live", ln*size)
 				copy(unsafe.Slice((*byte)(arr), cp*size), snap)
+				if ln < cp {
+					copy(unsafe.Slice((*byte)(arr), cp*size)[ln*size:], verifBytes("stale", size))
+				}
 			}
 		}
 		rb.types = append(rb.types, resourceType{ptyp: unpackEFace(typ).data, array: arr, cap: cp, len: ln, size: size})
